@@ -6,7 +6,10 @@ props = [json.loads(l) for l in open(os.path.join(root, 'properties.jsonl'))]
 # only properties listed in checks/enabled.txt (maintained by the coordinator once a check is green) are claimed
 enabled = set(open(os.path.join(root, 'checks', 'enabled.txt')).read().split())
 cfgs = {}
+import re
 for f in sorted(glob.glob(os.path.join(root, 'checks', 'C*.json'))):
+    if not re.fullmatch(r'C\d+\.json', os.path.basename(f)):
+        continue
     c = json.load(open(f))
     if c['id'] in enabled:
         cfgs[c['id']] = c
